@@ -71,6 +71,26 @@ SPECS = {
         rule="unions of 2-3 tables with permuted column order, hidden columns, duplicate rows, nullable columns, empty sides, chains, "
         "verbs before and after; rows compared with REF's bag / set union by column name",
     ),
+    "C09": dict(
+        fams=[("refs", 4), ("general", 1), ("join", 1), ("reroot", 1)],
+        owns=("value:", "excls:", "accept:", "exc:", "refname:"),
+        quick=900,
+        thorough=3000,
+        rule="histories of rename (incl. swaps, renaming onto a hidden column's name) / select / drop / overwriting mutate / arrange / filter / "
+        "join (suffixing) / alias(keep_col_refs=True) / collect between taking a reference and using it; at the end every reference through "
+        "every earlier table handle and C.<name> are used side by side in one mutate and compared with REF's identity model; `derived[ref].name` is "
+        "compared with REF's current name of that column id; references that are not derivable any more must raise ColumnNotFoundError",
+    ),
+    "C16": dict(
+        fams=[("reroot", 1)],
+        owns=("value:", "excls:", "accept:", "exc:", "san:C16", "type:", "meta:"),
+        quick=800,
+        thorough=3000,
+        rule="random prefix (hidden columns, renames, grouping, overwrites) >> one of alias() / alias(name) / alias(keep_col_refs=True) / collect() / "
+        "collect(keep_col_refs=False) / transfer_col_references / alias twice >> uses of old and new references, self joins with the origin, "
+        "summarize after a grouped collect; exports before and after are compared with REF (identical data, names, order), old references are "
+        "accepted / rejected as documented, and the uuid maps returned by every _clone are checked to be injective (sys.monitoring)",
+    ),
     "C10": dict(
         fams=[("general", 3), ("order", 1), ("summarize", 1), ("join", 1), ("union", 1)],
         owns=("san:I4", "san:I5", "san:I6", "san:I7", "san:I10", "san:I14", "reexport:", "sql"),
@@ -149,6 +169,8 @@ def run(run_, prop, n, shard_index=0):
             run_.counters["in_domain_programs"] += 1
         for t in prog["tables"]:
             run_.counters["table_shape:" + str(t.get("shape"))] += 1
+        if prop == "C09":
+            name_probe(run_, prog, out)
         for f in out.findings:
             if f.kind == "harness":
                 run_.counters["harness_problems"] += 1
@@ -163,6 +185,37 @@ def run(run_, prop, n, shard_index=0):
             run_.finding(f, prog, owned=own, reshrink=still, ctx={"ref": mode_env})
     run_.inconclusive_if(judged < max(10, n // 4), f"only {judged} probe exports reached the REF oracle")
     return run_
+
+
+def name_probe(run_, prog, out):
+    """C09: `derived[ref].name` reports the current name of the referenced column (or raises
+    ColumnNotFoundError when the column is not visible in `derived`)."""
+    from ..runner import Finding
+
+    h = prog.get("meta", {}).get("name_probe")
+    if h is None:
+        return
+    for be, renv in out.real_env.items():
+        if h not in renv or h not in out.ref_env.get(be, {}) or h not in out.ref_ok.get(be, ()):
+            continue
+        tbl, rt = renv[h], out.ref_env[be][h]
+        idn = rt.id_to_name()
+        for hh, rtab in out.ref_env[be].items():
+            if hh not in renv or hh not in out.ref_ok.get(be, ()):
+                continue
+            for n, cid in rtab.vis[:6]:
+                try:
+                    ref_col = renv[hh][n]
+                except Exception:
+                    continue
+                run_.counters["derived_name_probes"] += 1
+                try:
+                    got = tbl[ref_col].name
+                except Exception as e:  # noqa: BLE001
+                    got = type(e).__name__
+                exp = idn.get(cid, "ColumnNotFoundError")
+                if got != exp:
+                    out.findings.append(Finding("refname:" + be, be, h, f"{h}[{hh}.{n}].name = {got!r}, REF says {exp!r}", verb="getitem"))
 
 
 def finalize(run_, prop):
